@@ -35,6 +35,8 @@ def relayout(rng, sql, multibyte=True, multiline_lit=0.03):
             out.append(" /* %s */ " % rng.choice(["c", "-- x", "multi\n   line" if rng.random() < 0.3 else "b"]))
         elif r < 0.20:
             out.append("  ")
+        elif r < 0.24:
+            out.append(" /* %s */\n%s" % (rng.choice(["why", "surrogate key", "x -- y", "a * b"]), rng.choice(["", "  "])))   # a block comment that closes the line
         else:
             out.append(" ")
     return "".join(out)
